@@ -27,7 +27,10 @@ def _env(it):
 
 
 CONTRACTS["cascade:validate_cascade#nesting"] = dict(
-    schema=schema, fragment={"iter": "range(0, len(expanded) - 1)"}, make_env=_env, params={"i": "int"},
+    # the loop is found by what its body tests; that it runs over EVERY consecutive pair (first index 0, stop index n - 1) is an
+    # obligation on its iterable, whatever its source text
+    schema=schema, fragment={"body_contains": "set(expanded[i + 1]) <= set(expanded[i])", "iter_range": {"first": "0", "stop": "n_stages - 1", "label": "C18+C20.every_consecutive_pair_of_stages_is_checked"}},
+    make_env=_env, params={"i": "int"},
     stubs={"expanded.keys()": "STAGE_NAMES"},
     requires=["0 <= i", "i < n_stages - 1"],
     raises={"InvalidCascade": "not (expanded[i + 1] <= expanded[i])"},
@@ -36,23 +39,30 @@ CONTRACTS["cascade:validate_cascade#nesting"] = dict(
 
 
 def _replay(model, contract):
-    """replay on the REAL validate_cascade: an ad hoc cascade on the udt framework whose third stage is nested in the first
-    stage but not in the second must be rejected"""
+    """replay on the REAL validate_cascade: ad hoc cascades on the udt framework that break the nesting between the first and second
+    stage, and between the second and third stage, must each be rejected; a nested one must be accepted"""
     import warnings
     import atomica as at
     from atomica.cascade import validate_cascade, InvalidCascade
 
     warnings.simplefilter("ignore")
     F = at.demo("udt", do_run=False).framework
-    cascade = {"everyone": "all_people", "treated": "all_tx", "diagnosed": "all_dx"}      # all_tx < all_dx < all_people: stage 3 is not inside stage 2
-    pre = dict(framework="udt", cascade=cascade)
-    try:
-        validate_cascade(F, cascade, cascade_name="replay")
-    except InvalidCascade as e:
-        return dict(verdict="holds", detail="the un-nested cascade is rejected with InvalidCascade", prestate=pre)
-    except Exception as e:
-        return dict(verdict="violates", detail="validate_cascade raised the internal error %s: %s" % (type(e).__name__, e), prestate=pre)
-    return dict(verdict="violates", detail="validate_cascade ACCEPTED a cascade whose stage 'diagnosed' (all_dx) is not a subset of the preceding stage 'treated' (all_tx)", prestate=pre)
+    cases = [("second stage not inside the first", {"treated": "all_tx", "everyone": "all_people", "diagnosed": "all_dx"}, False),
+             ("third stage not inside the second", {"everyone": "all_people", "treated": "all_tx", "diagnosed": "all_dx"}, False),
+             ("properly nested", {"everyone": "all_people", "diagnosed": "all_dx", "treated": "all_tx"}, True)]
+    bad, tried = [], []
+    for what, cascade, ok in cases:
+        try:
+            validate_cascade(F, cascade, cascade_name="replay")
+            outcome = "accepted"
+        except InvalidCascade:
+            outcome = "rejected"
+        except Exception as e:  # noqa
+            outcome = "internal error %s: %s" % (type(e).__name__, e)
+        tried.append(dict(case=what, cascade=cascade, outcome=outcome))
+        if outcome != ("accepted" if ok else "rejected"):
+            bad.append("cascade %r (%s) was %s" % (list(cascade.values()), what, outcome))
+    return dict(verdict="violates" if bad else "holds", detail="; ".join(bad) or "both un-nested cascades are rejected with InvalidCascade, the nested one is accepted", prestate=dict(framework="udt", cases=tried))
 
 
 for _c in CONTRACTS.values():
